@@ -60,6 +60,12 @@ def run_shard(shard, tier, seed, wd, res):
         m = s.op("miller", V.lst([p, q_]))
         s.op("final_exp", m)
         s.op("final_exp", s.op("fq12.mul", m, m))
+        # unitary elements (norm one over Fq6): pairing values and conj(x)/x
+        e_ = s.op("final_exp", m)
+        s.op("final_exp", e_)
+        s.op("final_exp", s.op("fq12.mul", e_, e_))
+        x_ = T(r12(rng))
+        s.op("final_exp", s.op("fq12.mul", s.op("fq12.conj", x_), s.op("fq12.inv", x_)))
     n = 10 if tier == "quick" else 14
     for _ in range(n):
         f1, f2 = r12(rng), r12(rng)
